@@ -53,6 +53,11 @@ type Case struct {
 
 func genTags(t *rapid.T, max int) pbt.M {
 	n := rapid.IntRange(0, max).Draw(t, "ntags")
+	if rapid.IntRange(0, 5).Draw(t, "manytags?") == 0 {
+		// more tags than any preallocated tag slice of the reporter holds (its pooled slices have room
+		// for ten): the list has to grow, and what was measured must still be what is sent
+		n = rapid.IntRange(9, 24).Draw(t, "manytags")
+	}
 	if n == 0 {
 		return nil
 	}
